@@ -551,7 +551,7 @@ func (env *SpecEnv) index(x SIndex) Val {
 		switch u := base.T.Underlying().(type) {
 		case *types.Slice:
 			s := base.S
-			addr := fmt.Sprintf("(elem (sl_arr %s) (+ (sl_off %s) %s))", s, s, i.S)
+			addr := fmt.Sprintf("(selem %s %s)", s, i.S)
 			if g.structInfoOf(u.Elem()) != nil {
 				return Val{Addr: addr, T: u.Elem(), Sort: g.sortOf(u.Elem())}
 			}
